@@ -50,6 +50,11 @@ def gen_tree(rng, size, base, patt=None):
     names.add(rng.choice(MISSES))
     if size >= 4 and rng.random() < 0.6:
         names.update(rng.sample(rng.choice(TIE_GROUPS), 2))
+    faulty = {}
+    if size >= 4 and rng.random() < 0.5:
+        fn = rng.choice(["!dangling", "0fifo", "M..M", "a-dangling", "k.\\k"])
+        faulty[fn] = "fifo" if "fifo" in fn else "symlink" if "dangling" in fn else "file"
+        names.add(fn)
     while len(names) < size:
         names.add(rng.choice(rng.choice([MATCHING, MISSES, PLAIN, PLAIN, DOTS])))
     names = sorted(names)
@@ -60,6 +65,9 @@ def gen_tree(rng, size, base, patt=None):
     hidden = set()
     files = []
     for n in names:
+        if n in faulty and faulty[n] != "file":
+            tree.append({"path": tp(pre + n), "kind": faulty[n], "target": "nowhere-at-all"})
+            continue
         if n in DIRLIKE:
             tree.append({"path": tp(pre + n), "kind": "dir"})
             if n not in (".cap",) and rng.random() < 0.5:
@@ -75,7 +83,7 @@ def gen_tree(rng, size, base, patt=None):
     # for a file that is not listed ADDS an entry for it; that is C08's subject, not C07's)
     # ... and that a line of a link file can name at all (lines are stripped)
     listed = [n for n in names if not n.startswith(".") and not re.search(patt, base_sel + "/" + n)
-              and "\n" not in n and n == n.strip() and not n.endswith("/")]
+              and "\n" not in n and n == n.strip() and not n.endswith("/") and n not in faulty]
     link_hidden = set()      # hidden by a link block: later blocks may name the same path again, it stays hidden
     real_hidden, real_link_hidden = hidden, link_hidden
     for n in names:
@@ -233,6 +241,42 @@ def apply_edits(tree, edits):
             t = [dict(x, path=e["to"] + x["path"][len(e["path"]):]) if (x["path"] == e["path"] or x["path"].startswith(e["path"] + "/"))
                  else x for x in t]
     return t
+
+
+def byte_names_trees():
+    """Link-file blocks (hide, title, number) that address files whose NAMES are not valid UTF-8 or not ASCII: a link
+    file names a file byte for byte."""
+    out = []
+    for targets in (["\udcae.txt", "caf\udce9", "r\udce9sum\udce9.txt"], ["na\u00efve.txt", "\u00fcber", "\udcff\udcfe"]):
+        tree = [{"path": tp("d/" + t), "data": "content\n"} for t in targets] + [{"path": "d/plain.txt", "data": "p\n"}]
+        tree.append({"path": "d/.names", "data": td("Type=X\nPath=./%s\n\nPath=./%s\nName=Titled %s\nNumb=1\n\nNumb=2\nPath=./%s\n"
+                                                    % (targets[0], targets[1], targets[1], targets[2]))})
+        out.append((tree, targets + ["plain.txt", ".names"], {targets[0]}))
+    return out
+
+
+def faulty_mixed_trees():
+    """Exactness with faults present: unservable entries (dangling link, FIFO, a name the selector filter rejects)
+    sorting before, between and after visible entries, link blocks and a .cap file on the visible ones."""
+    out = []
+    for variant in range(3):
+        good = ["b.txt", "m.txt", "t.txt", "zdir"]
+        tree = [{"path": "d/" + g, "data": "good\n"} for g in good[:-1]] + [{"path": "d/zdir", "kind": "dir"}]
+        bad = [("!first", "symlink"), ("c..c", "file"), ("n-fifo", "fifo"), ("zz-last", "symlink")]
+        bad = bad[variant:] + bad[:variant]
+        names = list(good)
+        for n, kind in bad[:3]:
+            if kind == "symlink":
+                tree.append({"path": "d/" + n, "kind": "symlink", "target": "nowhere-at-all"})
+            elif kind == "fifo":
+                tree.append({"path": "d/" + n, "kind": "fifo"})
+            else:
+                tree.append({"path": "d/" + n, "data": "rejected name\n"})
+            names.append(n)
+        tree.append({"path": "d/.names", "data": "Path=./t.txt\nName=Tee\n\nType=X\nPath=./m.txt\n"})
+        tree.append({"path": "d/.cap/b.txt", "data": "Numb=1\n"})
+        out.append((tree, names + [".names", ".cap"], {"m.txt"}))
+    return out
 
 
 def matching_dirs(patt):
@@ -496,6 +540,10 @@ def run(tier):
                       "nrand": 40})
     for t, names, hidden in hide_first_trees():
         trees.append({"tree": t, "dir": "/d", "names": names, "hidden": hidden, "perms": None, "nrand": 6})
+    for t, names, hidden in byte_names_trees():
+        trees.append({"tree": t, "dir": "/d", "names": names, "hidden": hidden, "perms": "all"})
+    for t, names, hidden in faulty_mixed_trees():
+        trees.append({"tree": t, "dir": "/d", "names": names, "hidden": hidden, "perms": None, "nrand": 10, "faulty": True})
     # directories whose own path is matched by an unanchored alternative; other configured patterns
     for patt in [None] + OTHER_PATTERNS:
         live = patt or shipped
@@ -616,7 +664,7 @@ def run(tier):
             if want is None:
                 continue
             chk.count(("fetch", tp(pre_ + n)))
-            if n.startswith("URL:") or "\n" in n or n != n.strip() or "\t" in n:
+            if n.startswith("URL:") or "\n" in n or n != n.strip() or "\t" in n or any(x in n for x in umnlib.CLIMBERS):
                 continue   # not addressable in the plain Gopher request syntax
             if fr["out"] != want or fr["exc"]:
                 found = True
